@@ -216,6 +216,29 @@ def install(eng):
         return P(st.env['errno'], 0)
     eng.ext_globals['__libc_single_threaded'] = lambda st, o: o.cells.__setitem__(0, (1, 1))
 
+    # ------------------------------------------------------------ libm (IEEE semantics via z3 FP / python floats)
+    def fm(base, bits=64):
+        return lambda st, a: eng.fmath(st, base, bits, a)
+    for nme, base in (('floor', 'floor'), ('ceil', 'ceil'), ('trunc', 'trunc'), ('round', 'round'), ('rint', 'rint'), ('nearbyint', 'nearbyint'),
+                      ('fabs', 'fabs'), ('sqrt', 'sqrt'), ('copysign', 'copysign'), ('fmin', 'minnum'), ('fmax', 'maxnum')):
+        M[nme] = fm(base, 64); M[nme + 'f'] = fm(base, 32)
+    def to_int_model(base, obits):
+        def f(st, a):
+            r = eng.fmath(st, base, 64, a)
+            if isinstance(r, Undef): return Undef(obits)
+            if r.__class__ is int:
+                x = E.b2d(r)
+                if x != x or abs(x) >= 2.0 ** (obits - 1): return st.fresh('unspecified_' + base, obits)
+                return E.mask(int(x), obits)
+            F = E.tofp(r, 64)
+            inr = z3.And(z3.Not(z3.fpIsNaN(F)), z3.fpLT(F, z3.FPVal(2.0 ** (obits - 1), z3.Float64())), z3.fpGEQ(F, z3.FPVal(-(2.0 ** (obits - 1)), z3.Float64())))
+            return E.simp(z3.If(inr, z3.fpToSBV(z3.RTZ(), F, z3.BitVecSort(obits)), st.fresh('unspecified_' + base, obits)))
+        return f
+    M['llround'] = M['lround'] = to_int_model('round', 64)
+    M['llrint'] = M['lrint'] = to_int_model('rint', 64)
+    @model('fmod')
+    def m_fmod(st, a): return eng.fbin('frem', 64, a[0], a[1])
+
     # ------------------------------------------------------------ harness API
     def nm(st, p):
         try: return eng.read_cstr(st, p).decode()
@@ -250,7 +273,13 @@ def install(eng):
         if eng.env_witness and msg in eng.env_witness:
             raise Bug('witness', msg, eng._m(st))
         bad = (c == 0) if c.__class__ is not int and not isinstance(c, z3.BoolRef) else (z3.Not(c) if isinstance(c, z3.BoolRef) else (not c))
-        eng.check_bug(st, bad, 'assert', msg)
+        if eng.assert_solver is not None and E.is_sym(bad):
+            eng.assert_solver(st, E.boolv(E.simp(bad)) if E.is_sym(E.simp(bad)) else E.simp(bad), msg)
+        else:
+            eng.check_bug(st, bad, 'assert', msg)
+        # the assertion holds on every model of this path: keep it as a lemma for later queries
+        ok = E.simp(z3.Not(E.boolv(bad))) if E.is_sym(bad) else None
+        if ok is not None and E.is_sym(ok): st.pc.append(E.boolv(ok))
     @model('verif_reach')
     def v_reach(st, a): st.log.append(('reach', nm(st, a[0])))
     @model('verif_note')
@@ -262,3 +291,4 @@ def install(eng):
     @model('verif_concrete')
     def v_conc(st, a): return eng.concretize(st, a[0], 'verif_concrete')
     eng.env_witness = None
+    eng.assert_solver = None
